@@ -16,7 +16,22 @@ def main():
     seed = int(os.environ.get("VERIF_SEED", "0") or 0)
     mod = importlib.import_module("props." + a.prop.lower())
     replay = json.load(open(a.replay)) if a.replay else None
-    sys.exit(mod.main(a.tier if a.tier in ("quick", "thorough") else "quick", seed, replay))
+    tier = a.tier if a.tier in ("quick", "thorough") else "quick"
+    try:
+        rc = mod.main(tier, seed, replay)
+    except Exception:  # the harness itself failed on this tree: the property is no longer shown to hold
+        import hashlib
+        import traceback
+
+        tb = traceback.format_exc()
+        sys.stderr.write(tb)
+        root = os.path.dirname(os.path.dirname(os.path.dirname(os.path.abspath(__file__))))
+        os.makedirs(os.path.join(root, "replays"), exist_ok=True)
+        path = os.path.join(root, "replays", "%s-%s.json" % (a.prop, hashlib.sha256(tb.encode()).hexdigest()[:10]))
+        json.dump({"property": a.prop, "kind": "no-failing-input-found", "no_longer_checks": [{"kind": "correspondence", "name": "harness-exception", "detail": tb[-3000:]}], "seed": seed, "tier": tier}, open(path, "w"), indent=1)
+        print(f"VIOLATION property={a.prop} replay={path} no-failing-input-found", flush=True)
+        rc = 1
+    sys.exit(rc)
 
 
 if __name__ == "__main__":
